@@ -518,10 +518,19 @@ func (r *c13Run) del(rt *rapid.T) {
 
 func (r *c13Run) noteListing(prefix, after string, want []string) {
 	vis := r.visible()
-	for i := 0; i+1 < len(vis); i++ {
-		if strings.HasPrefix(vis[i+1], vis[i]+"/") && strings.HasPrefix(vis[i], prefix) {
-			r.ntPfx = true
-			break
+	set := make(map[string]bool, len(vis))
+	for _, k := range vis {
+		set[k] = true
+	}
+	for _, k := range vis {
+		if !strings.HasPrefix(k, prefix) || r.ntPfx {
+			continue
+		}
+		for i := len(prefix); i < len(k); i++ {
+			if k[i] == '/' && i > 0 && set[k[:i]] {
+				r.ntPfx = true // k[:i] is a key and also a directory
+				break
+			}
 		}
 	}
 	if after != "" {
